@@ -258,7 +258,11 @@ func compWS(o *out, seed uint64, tier string) {
 		mult = 8
 	}
 	emit := func(c *wsCase, class string) {
-		obs := iso("ws", c.fields(), 30*time.Second)
+		run := iso
+		if c.pre != 0 {
+			run = isoFresh // the "before" half of a pool-history case needs pools without a history
+		}
+		obs := run("ws", c.fields(), 30*time.Second)
 		// the model runner also validates the emitted frames against the frame specification
 		sinks, acc, closed := "", "", ""
 		for _, kv := range strings.Split(obs, " ") {
@@ -641,8 +645,15 @@ func compRS(o *out, seed uint64, tier string) {
 		nb := 1 + r.intn(5)
 		blocks, content := depBlocks(r, nb, 65536)
 		bc, cc := r.intn(2) == 1, r.intn(2) == 1
-		f := buildFrame(false, bc, cc, 4+r.intn(4), -1, blocks, false)
+		size := int64(-1)
+		if i%3 == 0 {
+			size = int64(len(content)) // declared content size (it may well fit in one block: the blocks still depend on each other)
+		}
+		f := buildFrame(false, bc, cc, 4+r.intn(4), size, blocks, false)
 		emit(&rsCase{in: f, ops: readOps(), frag: r.intn(5), conc: []int{1, 4}[r.intn(2)]}, "valid", content, "dependent-blocks")
+		if size >= 0 {
+			emit(&rsCase{in: f, ops: []string{"WT"}, frag: 0, conc: 2 + 2*r.intn(2)}, "valid", content, "dependent-blocks-with-size-concurrent")
+		}
 	}
 	if true {
 		// long dependent history: many blocks so that matches cross several boundaries at distance 65535
